@@ -60,47 +60,126 @@ theorem invalid_sequence_no_effect (ops : List Op) (h : H) (s : Store) (hv : ∀
     ∃ e, runOps h s ops = ({ h with error := e }, s) :=
   invalid_ops_no_effect ops h s hv
 
-/-! ### SFC_FILE_TRUNCATE: where an invalid / failing call does change the frame count
+/-! ### SFC_FILE_TRUNCATE
 
-`stepTruncate` mirrors `sf_command (SFC_FILE_TRUNCATE)`: it seeks, compares the seek result with the requested
-position, *then sets `sf.frames`*, then calls `psf_ftruncate`. -/
+`stepTruncate` mirrors `sf_command (SFC_FILE_TRUNCATE)`: refuse a read-only handle, refuse a virtual-I/O handle (since the
+TRUNC-VIO repair: SF_VIRTUAL_IO has no truncate callback), then seek, compare the seek result with the requested
+position, set `sf.frames`, call `psf_ftruncate`.  `h.canTruncate` is the route flag: true for path / descriptor routes. -/
 
-/-- a negative frame count other than −1 is rejected without effect (the command's failure value is 1) -/
-theorem truncate_negative_no_effect (h : H) (s : Store) (f : Int) (hm : h.mode ≠ .r) (hf : f < 0) (hf1 : f ≠ -1) :
+/-- NEW RULE (TRUNC-VIO repair): on a handle without `ftruncate` (SF_VIRTUAL_IO) the command is refused for EVERY argument
+    before anything is touched: it returns SF_TRUE (1), reports no error, and the handle (up to the cleared error field)
+    and the store are unchanged — in particular the frame count -/
+theorem truncate_vio_no_effect (h : H) (s : Store) (f : Int) (hm : h.mode ≠ .r) (hc : h.canTruncate = false) :
+    stepTruncate h s f = ({ h with error := 0 }, s, { ret := 1 }) :=
+  stepTruncate_vio h s f hm hc
+
+/-- a negative frame count other than −1 is rejected without effect on a descriptor route (the command's failure value is 1) -/
+theorem truncate_negative_no_effect (h : H) (s : Store) (f : Int) (hm : h.mode ≠ .r) (hc : h.canTruncate = true)
+    (hf : f < 0) (hf1 : f ≠ -1) :
     stepTruncate h s f = ({ h with error := E_BAD_SEEK }, s, { ret := 1, err := E_BAD_SEEK }) :=
-  stepTruncate_neg h s f hm hf hf1
+  stepTruncate_neg h s f hm hc hf hf1
 
-/-- the full statement for the command: a call that reports failure leaves the frame count alone -/
+/-- `invalid_call_no_effect` for the command, at FULL strength (every mode, every route, every argument): a call that
+    reports failure (non-zero return) leaves the whole handle unchanged up to the error field — the frame count and both
+    positions included — and the store untouched.  (Before the repair this failed on virtual I/O:
+    `truncate_invalid_no_effect_old_rule`.) -/
+theorem truncate_invalid_no_effect (h : H) (s : Store) (f : Int) (hr : (stepTruncate h s f).2.2.ret ≠ 0) :
+    ∃ e, (stepTruncate h s f).1 = { h with error := e } ∧ (stepTruncate h s f).2.1 = s ∧
+      (stepTruncate h s f).1.frames = h.frames := by
+  by_cases hm : h.mode = .r
+  · rw [stepTruncate_rmode _ _ _ hm]; exact ⟨0, rfl, rfl, rfl⟩
+  by_cases hc : h.canTruncate = true
+  case neg => rw [stepTruncate_vio _ _ _ hm (by simpa using hc)]; exact ⟨0, rfl, rfl, rfl⟩
+  by_cases hf : 0 ≤ f
+  · rw [stepTruncate_ok _ _ _ hm hf, if_pos hc] at hr; exact absurd rfl hr
+  · by_cases hf1 : f = -1
+    · subst hf1; rw [stepTruncate_minus1 _ _ hm, if_pos hc] at hr; exact absurd rfl hr
+    · rw [stepTruncate_neg _ _ _ hm hc (by omega) hf1]; exact ⟨E_BAD_SEEK, rfl, rfl, rfl⟩
+
+/-- the statement the repair made true, kept under its old name for the record -/
 def truncate_invalid_no_effect_full : Prop :=
   ∀ (h : H) (s : Store) (f : Int), HInv h s → (stepTruncate h s f).2.2.ret ≠ 0 →
     (stepTruncate h s f).1.frames = h.frames
 
-/-- witness 1: the request −1 equals `sf_seek`'s failure value, so the failed seek is taken for success and the frame
-    count becomes −1 (the call still reports failure).
-    witness 2 (same theorem, second component): on a virtual-I/O handle `psf_ftruncate` fails *after* `sf.frames` was
-    set, so a request of 2 frames on a 1-frame file returns −1 with an error and leaves `frames = 2`. -/
+theorem truncate_invalid_no_effect_full_holds : truncate_invalid_no_effect_full := by
+  intro h s f _ hr
+  obtain ⟨_, _, _, e⟩ := truncate_invalid_no_effect h s f hr
+  exact e
+
+/-- what is still wrong (descriptor routes only): a negative frame count must be refused -/
+def truncate_negative_refused_full : Prop :=
+  ∀ (h : H) (s : Store) (f : Int), HInv h s → h.mode ≠ .r → f < 0 →
+    (stepTruncate h s f).2.2.ret ≠ 0 ∧ (stepTruncate h s f).1.frames = h.frames
+
 def tS : Store := { bytes := [1,0, 2,0, 3,0], pos := 0 }
+/-- a 6-byte stereo 16-bit RAW file opened RDWR through virtual I/O … -/
 def tH : H := { store := 0, mode := .rw, container := .raw, enc := .pcm ⟨16, false, false⟩, big := false, ch := 2,
                 sr := 8000, fmtWord := 0x040002, frames := 1, wpos := 1, lastOp := .rw, haveWritten := true,
                 datalength := 6, filelength := 6 }
+/-- … and through a descriptor (the harness records `canTruncate` after the open) -/
+def tHfd : H := { tH with canTruncate := true }
 theorem tH_opened : openHandle 0 tS .rw 0x040002 2 8000 = .ok tH tS := by rfl
 
-theorem truncate_minus_one_sets_frames : (stepTruncate tH tS (-1)).2.2.ret = -1 ∧ (stepTruncate tH tS (-1)).2.2.err ≠ 0 ∧
-    (stepTruncate tH tS (-1)).1.frames = -1 ∧
-    (stepTruncate tH tS 2).2.2.ret = -1 ∧ (stepTruncate tH tS 2).2.2.err ≠ 0 ∧ (stepTruncate tH tS 2).1.frames = 2 := by
+/-- witness (descriptor route): the request −1 equals `sf_seek`'s failure value, so the failed seek is taken for success:
+    the call returns 0 (success!), the frame count becomes −1, the error left by the seek stays in the handle, and the
+    file is cut at the current position — here at 0, all audio lost.  (Repaired and unrepaired library alike, descriptor
+    route, same script: `ret=0 err=39`, then `frames=-1`.)  On virtual I/O the same request is refused cleanly. -/
+theorem truncate_minus_one_sets_frames :
+    (stepTruncate tHfd tS (-1)).2.2.ret = 0 ∧ (stepTruncate tHfd tS (-1)).1.error ≠ 0 ∧
+    (stepTruncate tHfd tS (-1)).1.frames = -1 ∧ (stepTruncate tHfd tS (-1)).2.1.bytes = [] ∧
+    stepTruncate tH tS (-1) = ({ tH with error := 0 }, tS, { ret := 1 }) ∧
+    stepTruncate tH tS 2 = ({ tH with error := 0 }, tS, { ret := 1 }) := by
+  refine ⟨by decide, by decide, by decide, by decide, by rfl, by rfl⟩
+
+theorem truncate_negative_refused_full_fails : ¬ truncate_negative_refused_full := by
+  intro hfull
+  have hi : HInv tHfd tS :=
+    (HInv_openHandle 0 tS .rw 0x040002 2 8000 tH tS tH_opened).of_writable (by decide) rfl rfl (by decide) (by decide) (by decide)
+  exact absurd (hfull tHfd tS (-1) hi (by decide) (by decide)).1 (by decide)
+
+/-- what holds: every negative count except −1 (`truncate_negative_no_effect`), and every count on virtual I/O
+    (`truncate_vio_no_effect`) -/
+theorem truncate_negative_refused_partial (h : H) (s : Store) (f : Int) (hm : h.mode ≠ .r) (hf : f < 0)
+    (hx : h.canTruncate = false ∨ f ≠ -1) :
+    (stepTruncate h s f).2.2.ret ≠ 0 ∧ (stepTruncate h s f).1.frames = h.frames := by
+  by_cases hc : h.canTruncate = true
+  case neg => rw [stepTruncate_vio _ _ _ hm (by simpa using hc)]; exact ⟨Int.one_ne_zero, rfl⟩
+  rcases hx with hx | hx
+  · rw [hc] at hx; cases hx
+  · rw [stepTruncate_neg _ _ _ hm hc hf hx]; exact ⟨Int.one_ne_zero, rfl⟩
+
+/-- OLD RULE (before the TRUNC-VIO repair, `stepTruncateOld`, virtual I/O): witness 1 — the request −1 was taken for a
+    successful seek, the frame count became −1 and `psf_ftruncate` then failed: −1 with an error;
+    witness 2 — `psf_ftruncate` failed *after* `sf.frames` was set, so a request of 2 frames on a 1-frame file returned −1
+    with an error and left `frames = 2` -/
+theorem truncate_minus_one_sets_frames_old_rule :
+    (stepTruncateOld tH tS (-1)).2.2.ret = -1 ∧ (stepTruncateOld tH tS (-1)).2.2.err ≠ 0 ∧
+    (stepTruncateOld tH tS (-1)).1.frames = -1 ∧
+    (stepTruncateOld tH tS 2).2.2.ret = -1 ∧ (stepTruncateOld tH tS 2).2.2.err ≠ 0 ∧ (stepTruncateOld tH tS 2).1.frames = 2 := by
   decide
 
-theorem truncate_invalid_no_effect_full_fails : ¬ truncate_invalid_no_effect_full := by
+/-- OLD RULE: with `stepTruncateOld` the full statement failed (a failing call changed the frame count) -/
+theorem truncate_invalid_no_effect_old_rule :
+    ¬ (∀ (h : H) (s : Store) (f : Int), HInv h s → (stepTruncateOld h s f).2.2.ret ≠ 0 →
+        (stepTruncateOld h s f).1.frames = h.frames) := by
   intro hfull
   have hi := HInv_openHandle 0 tS .rw 0x040002 2 8000 tH tS tH_opened
-  exact absurd (hfull tH tS (-1) hi (by decide)) (by decide)
+  exact absurd (hfull tH tS 2 hi (by decide)) (by decide)
 
-/-- consequence for C05 (RDWR only): after the failed truncate above the store no longer holds `frames` whole frames,
-    and a valid items read returns 3 items on a 2-channel file and stops short of the (inflated) frame count -/
+/-- non-vacuity of `truncate_invalid_no_effect`: the three refusing classes are inhabited (read-only handle, virtual I/O,
+    negative count on a descriptor route), and a successful call (which the theorem does not speak about) does change
+    the frame count -/
+example : (stepTruncate { tH with mode := .r } tS 0).2.2.ret ≠ 0 ∧ (stepTruncate tH tS 0).2.2.ret ≠ 0 ∧
+    (stepTruncate tHfd tS (-2)).2.2.ret ≠ 0 ∧ (stepTruncate tHfd tS 0).2.2.ret = 0 ∧ (stepTruncate tHfd tS 0).1.frames = 0 := by
+  decide
+
+/-- consequence for C05: since the repair the refused command leaves the virtual-I/O handle exactly as it was, and a
+    valid items read after it returns whole frames (2 items of the 1-frame file; the old rule delivered 3 of an
+    inflated frame count, C05 `read_whole_frames_old_rule`) -/
 example :
     let st := runOps tH tS [.truncate 0 2, .seek 0 0 0]
-    (stepRead st.1 st.2 .s16 false 4).2.2.ret = 3 ∧ (stepRead st.1 st.2 .s16 false 4).2.2.err = 0 ∧
-    (stepRead st.1 st.2 .s16 false 4).1.rpos = 1 ∧ (stepRead st.1 st.2 .s16 false 4).1.frames = 2 := by decide
+    (stepRead st.1 st.2 .s16 false 4).2.2.ret = 2 ∧ (stepRead st.1 st.2 .s16 false 4).2.2.err = 0 ∧
+    (stepRead st.1 st.2 .s16 false 4).1.rpos = 1 ∧ (stepRead st.1 st.2 .s16 false 4).1.frames = 1 := by decide
 
 /-! ## success_clears_error -/
 
